@@ -98,8 +98,8 @@ func registerAll() {
 		MustProbes: []string{"decoded_ok", "net.leninflate", "net.nest", "net.pad", "net.truncate", "max_steps_in_one_call"},
 	}
 
-	stubsReg := []string{"eight sim profile kinds (extension over P1; over P2; own JSON profile member; own member whose json tag carries an option; two embedded structs with the profile-bearing one second; profile-1 shaped with a plain-text profile under key 265 and names that are not URIs; no profile field; profile field without json tag)", "hook T3 (register snapshot/restore, injected into the scratch copy only)", "seam T1 (map iteration order chosen by the simulator)"}
-	regRule := "one run = the pristine register, a pool of 1..8 candidate profile names (URIs, a URN and two plain strings) and a history of 1..40 operations {register (eight profile kinds; new, duplicate and built-in names), re-register, NewClaims, dispatching decode of one of ~50 probe documents (both serialisations; every pool / built-in / unknown name under every profile member; no profile, null, non-string, both profiles' members), mutate-one-instance-read-the-other (two NewClaims results, two profiles, the same buffer decoded twice; 16 mutation kinds incl. writes through slices handed out by getters and in-place edits of the instance's profile object)}; every JSON dispatch is repeated under reverse and 2..10 permuted registry iteration orders; before and after EVERY registration attempt the whole probe set and NewClaims of every name are evaluated. "
+	stubsReg := []string{"eleven sim profile kinds (extension over P1, with and without the profile claim preset; two function-local claims types of the same type name with different profile members and no codecs of their own; extension over P2; own JSON profile member; own member whose json tag carries an option; two embedded structs with the profile-bearing one second; profile-1 shaped with a plain-text profile under key 265 and names that are not URIs; no profile field; profile field without json tag)", "hook T3 (register snapshot/restore, injected into the scratch copy only)", "seam T1 (map iteration order chosen by the simulator)"}
+	regRule := "one run = the pristine register, a pool of 1..8 candidate profile names (URIs, a URN, plain strings, names with surrounding white space; the case / white-space variants of every name are probed as never-registered names) and a history of 1..40 operations {register (eleven profile kinds; new, duplicate and built-in names), re-register, NewClaims, dispatching decode of one of ~50 probe documents (both serialisations; every pool / built-in / unknown name under every profile member; no profile, null, non-string, both profiles' members), mutate-one-instance-read-the-other (two NewClaims results, two profiles, the same buffer decoded twice; 16 mutation kinds incl. writes through slices handed out by getters and in-place edits of the instance's profile object)}; every JSON dispatch is repeated under reverse and 2..10 permuted registry iteration orders; before and after EVERY registration attempt the whole probe set and NewClaims of every name are evaluated. "
 	props["C16"] = &propSpec{
 		ID: "C16", Worlds: []string{"W-REG"}, QuickRuns: 3000, ThoroughRuns: 300000, Isolated: true,
 		Rule: regRule + "non-trivial = at least one successful and one failed registration and one JSON dispatch evaluated under several orders with an extra profile registered; distinct = distinct hash of (operation kinds with outcomes, name pool)",
@@ -113,7 +113,7 @@ func registerAll() {
 		Rule: regRule + "For C07 each dispatch is compared with a reference dispatch over the model register (declared name -> registered kind; nothing declared -> profile 1; unregistered or non-string value -> error) and with decoding the same bytes straight into a fresh NewClaims(declared) instance and validating it. non-trivial = at least one accepted token whose reported profile was checked, with an extra profile registered; distinct as for C16",
 		Real: commonReal, Stubs: stubsReg,
 		Assumptions: []string{"documents the property leaves open (profile claim null in CBOR, both profiles' members, a registered name under another profile's member) get only the weak invariant: never decoded as a profile other than a declared one or the default"},
-		MustProbes:  []string{"accepted_token_profile_checked", "dispatch_expect_error", "dispatch_expect_p1", "dispatch_expect_p2", "dispatch_expect_xp1", "dispatch_expect_xp2", "dispatch_expect_own", "dispatch_expect_opt", "dispatch_expect_two", "dispatch_expect_str", "dispatch_weak"},
+		MustProbes:  []string{"accepted_token_profile_checked", "dispatch_expect_error", "dispatch_expect_p1", "dispatch_expect_p2", "dispatch_expect_xp1", "dispatch_expect_xp2", "dispatch_expect_own", "dispatch_expect_opt", "dispatch_expect_two", "dispatch_expect_str", "dispatch_expect_xp1n", "dispatch_expect_loca", "dispatch_expect_locb", "dispatch_weak"},
 	}
 
 	props["C17"] = &propSpec{
